@@ -1,3 +1,4 @@
+mod bfs;
 mod checks;
 mod common;
 mod env;
